@@ -576,6 +576,8 @@ func TestVerifC06Table(t *testing.T) {
 	const chainEvery = 25
 	chrng := rep.Rand("chains")
 	arng := rep.Rand("addrspelling")
+	hrng := rep.Rand("hostsfiles")
+	hostsDir := t.TempDir()
 
 	for ti := 0; ti < nTables+len(scripted); ti++ {
 		var table []c06Entry
@@ -619,6 +621,8 @@ func TestVerifC06Table(t *testing.T) {
 		obs := make([][3]c06Obs, len(qs))
 		var viaFile []c06Obs
 		var inFile []c06Entry
+		var withHosts []c06Obs
+		var hostsLines []string
 		failed := make([]bool, len(qs))
 
 		w.begin(ti)
@@ -661,6 +665,46 @@ func TestVerifC06Table(t *testing.T) {
 						map[string]any{"table": ord, "query_name": name, "query_type": dns.TypeToString[q.qt]})
 				default:
 					obs[qi][k] = c06Observe(res)
+				}
+			}
+			if k == 0 && ti%5 == 0 {
+				// The same table in the same order on a filter that also has
+				// a hosts container in which names of this table appear with
+				// other addresses: the table's verdict must not change.
+				qnames := make([]string, 0, len(qs))
+				for qi, q := range qs {
+					if qi == 0 || q.name != qs[qi-1].name {
+						qnames = append(qnames, q.name)
+					}
+				}
+				hostsLines = c06HostsLines(hrng.Intn, ord, qnames)
+				if hc, herr := c06HostsContainer(hostsDir, hostsLines); herr != nil {
+					rep.Inconcl("hosts container: " + herr.Error())
+				} else {
+					rw2 := make([]*LegacyRewrite, len(ord))
+					for i, e := range ord {
+						rw2[i] = &LegacyRewrite{Domain: e.Domain, Answer: e.Answer}
+					}
+					if hd, nerr := New(&Config{Rewrites: rw2, DataDir: dataDir, EtcHosts: hc}, nil); nerr == nil {
+						rep.Event("filters_with_hosts_container")
+						rep.EventN("hosts_file_lines", len(hostsLines))
+						withHosts = make([]c06Obs, len(qs))
+						for qi, q := range qs {
+							w.at(ord, 4, q.name, q.qt)
+							res, cerr, pan := c06Call(hd, setts, q.name, q.qt)
+							rep.Event("checkhost_calls")
+							if cerr != nil || pan != nil || (res.Reason != Rewritten && res.Reason != NotFilteredNotFound && res.Reason != RewrittenAutoHosts) {
+								failed[qi] = true
+								rep.Violate("panic-error-or-foreign-reason:checkhost-with-hosts-files", fmt.Sprintf("CheckHost with a hosts container: %v %v %s", pan, cerr, res.Reason),
+									map[string]any{"table": ord, "hosts_file": hostsLines, "query_name": q.name})
+
+								continue
+							}
+							withHosts[qi] = c06Observe(res)
+						}
+						hd.Close()
+					}
+					_ = hc.Close()
 				}
 			}
 			if k == 0 {
@@ -778,6 +822,32 @@ func TestVerifC06Table(t *testing.T) {
 							q.name, dns.TypeToString[q.qt], verifkit.JSON(o), verifkit.JSON(r)), m)
 				}
 			}
+			if withHosts != nil {
+				o, h := obs[qi][0], withHosts[qi]
+				inHosts := false
+				for _, l := range hostsLines {
+					inHosts = inHosts || strings.HasSuffix(l, " "+q.name)
+				}
+				switch {
+				case h.Hosts && o.Pass:
+					rep.Event("hosts_files_answered_a_name_the_table_passes")
+				case h.Hosts:
+					m := wit(0)
+					m["hosts_file"] = hostsLines
+					m["answer_with_hosts_container"] = h
+					rep.Violate("hosts-files-override-rewrite-table:"+o.shape(),
+						fmt.Sprintf("%s %s: the table answers %s, but with the name also in the hosts files the answer came from the hosts files",
+							q.name, dns.TypeToString[q.qt], verifkit.JSON(o)), m)
+				case o.Pass != h.Pass || o.Canon != h.Canon || strings.Join(o.IPs, ",") != strings.Join(h.IPs, ","):
+					m := wit(0)
+					m["hosts_file"] = hostsLines
+					m["answer_with_hosts_container"] = h
+					rep.Violate("hosts-files-change-rewrite-answer:"+o.shape(),
+						fmt.Sprintf("%s %s: the table answers %s without and %s with a hosts container", q.name, dns.TypeToString[q.qt], verifkit.JSON(o), verifkit.JSON(h)), m)
+				case !o.Pass && inHosts:
+					rep.Event("table_answer_unchanged_for_a_name_in_the_hosts_files:" + o.shape())
+				}
+			}
 			if exp.Depth >= 9 {
 				c06CountLong(rep, exp)
 			}
@@ -835,6 +905,11 @@ func TestVerifC06Table(t *testing.T) {
 	}
 	if rep.Events["served:ipv4-mapped-ipv6-value"] < 100 || rep.Events["served:zero-or-loopback-value"] < 50 {
 		rep.Inconcl("too few answers with IPv4-mapped, zero or loopback values observed")
+	}
+	for _, sh := range []string{"values", "empty", "cname-only", "cname-values"} {
+		if k := "table_answer_unchanged_for_a_name_in_the_hosts_files:" + sh; rep.Events[k] < 100 {
+			rep.Inconcl(fmt.Sprintf("event %q seen %d times, fewer than 100", k, rep.Events[k]))
+		}
 	}
 	if rep.Classes["tables:chain:ending-cycle"] < 10 || rep.Events["restart_comparisons"] < 10000 {
 		rep.Inconcl("too few long chains ending in a cycle or too few restart comparisons")
